@@ -103,6 +103,9 @@ def impl(case):
         out['inner'] = _calculate_atom_states(sites=sites, trajectory=traj, site_radius=rd, site_inner_fraction=case['frac']).tolist()
         out['no_events'] = True
     out['wrapped'] = (np.array(traj.positions) * DEN).tolist()
+    rr = list(radius.values()) if isinstance(radius, dict) else [radius if radius is not None else out['auto_radius']]
+    rr = rr + [r * case['frac'] for r in rr]
+    out['pkdtree_disagrees'] = bool(synth.pkdtree_disagrees(lat, sites.frac_coords, np.array(traj.positions).reshape(-1, 3), rr))
     return out
 
 
@@ -164,12 +167,17 @@ def oracle(case, out):
         return [('c02/harness-error', f"{out.get('error')}: {out.get('msg')} {out.get('tb', '')[-500:]}")]
     fs = []
     an = _analyse(case, out)
+    D19 = ('sites/pkdtree-misses-neighbour', 'MDAnalysis PeriodicKDTree (float32) returns a different neighbour set than its own brute-force search for this configuration '
+           '(a site exactly on a face of a skewed cell is wrapped to an image outside the primary cell): ')
     where = f'lattice {case["m"]} ({case["orient"]}), sites/8 {case["sites8"]}, labels {case["labels"]}, radius {case["radius"] if case["mode"] != "auto" else out["auto_radius"]}'
     for t, row in enumerate(an):
         for a, (adm_o, adm_i, guard) in enumerate(row):
             if guard:
                 continue
             st, inn = out['states'][t][a], out['inner'][t][a]
+            if out.get('pkdtree_disagrees') and ((adm_o and st not in adm_o) or (not adm_o and st != -1) or (adm_i and inn not in adm_i) or (not adm_i and inn != -1)):
+                fs.append((D19[0], D19[1] + f'atom {a} frame {t}: state {st} / inner {inn}, admissible {adm_o} / {adm_i}; {where}'))
+                return fs
             if (adm_o and st not in adm_o) or (not adm_o and st != -1):
                 fs.append(('sites/state-not-admissible', f'atom {a} frame {t} at {case["pos"][t][a]}/4096: state {st}, sites whose sphere contains it: {adm_o}; {where}'))
                 return fs
@@ -191,8 +199,8 @@ def _rat(x):
 
 
 def coq_term(case, out):
-    if 'states' not in out:
-        return None
+    if 'states' not in out or out.get('pkdtree_disagrees'):
+        return None          # known finding D19: the search backend itself is inconsistent on this configuration (counted as excluded)
     an = _analyse(case, out)
     m = case['m']
     rad = _radii(case, out)
